@@ -430,7 +430,10 @@ def fwd_same_name(ctx, obs: Obligations, q: str, names: Sequence[str], rule='FWD
 class Inliner:
     """expression inlining through single reaching definitions ("what is this value as a function of the sources")"""
 
-    def __init__(self, res: FuncResult, source_call_leaf: Optional[str] = None, source_params: Sequence[str] = ()):
+    def __init__(self, res: FuncResult, source_call_leaf: Optional[str] = None, source_params: Sequence[str] = (),
+                 stop: Sequence[str] = (), mark_sites: bool = False):
+        self.stop = set(stop)
+        self.mark_sites = mark_sites
         self.res = res
         self.src_leaf = source_call_leaf
         self.src_params = list(source_params)
@@ -440,6 +443,8 @@ class Inliner:
         if depth > 40:
             return ast.Name(id='DEEP', ctx=ast.Load())
         if isinstance(e, ast.Name) and isinstance(e.ctx, ast.Load):
+            if e.id in self.stop:
+                return ast.Name(id=e.id, ctx=ast.Load())
             ids = sorted(self.res.load_defs.get(id(e), ()))
             if not ids:
                 return ast.Name(id=e.id, ctx=ast.Load())
@@ -490,7 +495,11 @@ class Inliner:
                         return ast.Name(id='SRC%d' % k[0], ctx=ast.Load())
                     if isinstance(rhs, (ast.Tuple, ast.List)) and len(rhs.elts) == len(tgt.elts):
                         return self.inline(rhs.elts[k[0]], depth + 1)
-                    return ast.Subscript(value=self.inline(rhs, depth + 1), slice=ast.Constant(value=k[0]), ctx=ast.Load())
+                    inner = self.inline(rhs, depth + 1)
+                    if self.mark_sites and isinstance(inner, ast.Call):
+                        # distinguish two textually identical calls (two draws): tag the call with its definition id
+                        inner.keywords = list(inner.keywords) + [ast.keyword(arg='_site', value=ast.Constant(value=d.node.lineno * 1000 + d.node.col_offset))]
+                    return ast.Subscript(value=inner, slice=ast.Constant(value=k[0]), ctx=ast.Load())
                 return self.inline(node.value, depth + 1)
             if d.kind == 'aug' and isinstance(node, ast.AugAssign):
                 prev = sorted(self.res.aug_prev.get(d.did, ()))
